@@ -214,6 +214,7 @@ def worker(payload):
             continue
         seen_call = False
         change_after_call = False
+        broke_at = None
         warmed = {}
         for j, (a, b) in enumerate(zip(r["ops"], im)):
             out["ops"] += 1
@@ -234,11 +235,15 @@ def worker(payload):
                 ma.pop("nres", None)
                 b = {k: v for k, v in b.items() if k != "nres"}
                 b["nres"] = 0
-            if ma != {k: v for k, v in strip(b).items() if k in ma or k != "nres"}:
+            if broke_at is not None:
+                # after a correspondence break: no further comparison with the model, but the oracles, which look at
+                # the real code, are still evaluated on the calls that follow (the failing input is often a later one)
+                predicted[0] = False
+                stop_after = j > broke_at + 12
+            elif ma != {k: v for k, v in strip(b).items() if k in ma or k != "nres"}:
                 predicted[0] = False
                 out["corr"].append({"layer": "F", "op_index": j, "op": op, "model": ma, "impl": strip(b), "msg": b.get("msg"), "scenario": desc})
-                # the oracles below look at the real code only: evaluate them on this operation too, then stop
-                stop_after = True
+                broke_at = j
                 if op[0] != "call":
                     break
             if op[0] != "call":
@@ -333,6 +338,44 @@ def worker(payload):
                         known(o2, "D21:tiebreak-across-signatures", wit)
                     else:
                         o2["viol"].append({"law": "documented priority/specificity/recency rule", "spec": spec, "got": ik, **wit})
+            # ---------------- C07, model independent: along a chain of call_next calls that forward the call's own
+            # arguments, no method runs twice, priorities never go up, and a chain that falls off its end has
+            # visited every applicable method
+            ent = [e[0] for e in b.get("raw", [])]
+            if ent and not op[2] and len(set(regs)) == len(regs):  # (a definition registered twice is two entries)
+                bodies = [fw.defs_by_id[m]["body"] for m in ent]
+                npos_call = len(op[1])
+                plain = all(bd[0] == "ret" or (bd[0] == "callNext" and bd[1] == [["p", q] for q in range(npos_call)]) for bd in bodies)
+                if plain and all(len([p for p in fw.defs_by_id[m]["params"] if p["kind"] != "ko"]) == npos_call for m in ent):
+                    o7 = orc("C07")
+                    o7["n"] += 1
+                    if len(ent) > 1:
+                        o7["nontrivial"] += 1
+                    prios = [fw.defs_by_id[m]["prio"] for m in ent]
+                    law = None
+                    if len(set(ent)) != len(ent):
+                        law = "a method ran twice in one call_next chain"
+                    elif any(x < y for x, y in zip(prios, prios[1:])):
+                        law = "call_next went from a method to one of higher priority"
+                    elif ok[0] == "nomethod" and bodies[-1][0] == "callNext":
+                        app = {sc["defs"][t]["id"] for t in regs if doc_accepts(sc, regs, sc["defs"][t], op[1], op[2], fw)
+                               and all(fw.is_instance(fw.vals[v], sc["defs"][t]["id"], p["name"]) for p, v in zip([p for p in sc["defs"][t]["params"] if p["kind"] != "ko"], op[1]))}
+                        # a definition whose signature may equal another's was replaced by it (or replaced it)
+                        def maybe_same(d, e):
+                            pd, pe = d["params"], e["params"]
+                            return (len(pd) == len(pe) and all(x["kind"] == y["kind"] and x["req"] == y["req"] for x, y in zip(pd, pe))
+                                    and all(ann_below(fw, d, x["name"], e, y["name"]) is not False and ann_below(fw, e, y["name"], d, x["name"]) is not False
+                                            for x, y in zip(pd, pe)))
+                        rd = [sc["defs"][t] for t in regs]
+                        app = {i for i in app if not any(e["id"] != i and maybe_same(fw.defs_by_id[i], e) for e in rd)}
+                        # keep to definitions of the plain shape (exactly these positionals, all required); the
+                        # zero-argument slot of the table holds one method only
+                        app = {i for i in app if npos_call >= 1 and len(fw.defs_by_id[i]["params"]) == npos_call
+                               and all(p["kind"] != "ko" and p["req"] for p in fw.defs_by_id[i]["params"])}
+                        if len({sc["defs"][t]["id"] for t in regs}) == len(regs) and app - set(ent):
+                            law = "a call_next chain fell off its end without visiting every applicable method"
+                    if law:
+                        o7["viol"].append({"law": law, "chain": ent, **wit})
             # ---------------- C03: the selected method received exactly what was supplied
             o3 = orc("C03")
             if b.get("raw"):
